@@ -139,6 +139,10 @@ def gen_write_case(rng, i, version, xt, small):
     sc.add("*", "def_var", f=0, name="s:cust", xtype=xt, dimids="0", ndims=1)
     sc.add("*", "def_var_fill", f=0, v=1, nofill=0, fill="hex:" + np.array([cust]).astype(xdt).tobytes().hex())
     sc.add("*", "def_var", f=0, name="s:txt", xtype=2, dimids="0", ndims=1)
+    # a variable that is NOT in fill mode but carries a user _FillValue attribute: "the variable's fill value" is still that attribute
+    cust2 = {1: -5, 3: -999, 4: 987654, 5: -7.75, 6: 1e10, 7: 9, 8: 17, 9: 123456789, 10: 77777777777, 11: 99}[xt]
+    sc.add("*", "def_var", f=0, name="s:nfcust", xtype=xt, dimids="0", ndims=1)
+    sc.add("*", "put_att", f=0, v=3, name="s:_FillValue", mt=XT2MEM[xt], xtype=xt, n=1, data="hex:" + np.array([cust2]).astype(xdt).tobytes().hex())
     sc.add("*", "enddef", f=0)
     lo0 = sc.add("*", "inq", f=0, what="varoffset", v=0)
     lo1 = sc.add("*", "inq", f=0, what="varoffset", v=1)
@@ -158,7 +162,7 @@ def gen_write_case(rng, i, version, xt, small):
             if not ok and a is not None:
                 runs.append((a, k))
                 a = None
-        for vid, fill in ((0, cs.FILL[xt]), (1, cust)):
+        for vid, fill in ((0, cs.FILL[xt]), (1, cust), (3, cust2)):
             fillv = np.array([fill]).astype(xdt)[0]
             # call 1: whole vector (range error iff some element is unrepresentable)
             lp = sc.add("*", "put", f=0, v=vid, form="vara", mt=mt, coll=1, start="0", count=str(len(v)), data="hex:" + v.astype(MEM[mt]).tobytes().hex())
